@@ -31,10 +31,10 @@ Definition rows_of (c : chunk) : list nat := map (@length Z) (k_t c).
 Definition src_of_field (f : N) (c : chunk) : src cellv := mksrc (rows_of c) (lookup f (k_c c)).
 Definition src_of_time (c : chunk) : src cellv := mksrc (rows_of c) (Some (map (map (fun t => Some t)) (k_t c))).
 
-Definition model_field (cc : colcase) (f : N) : list (list cellv) :=
-  compact_col None (cc_max cc) (map (src_of_field f) (cc_in cc)).
-Definition model_time (cc : colcase) : list (list cellv) :=
-  compact_col None (cc_max cc) (map src_of_time (cc_in cc)).
+Definition model_field (mode : padmode) (cc : colcase) (f : N) : list (list cellv) :=
+  compact_col_gen mode None (cc_max cc) (map (src_of_field f) (cc_in cc)).
+Definition model_time (mode : padmode) (cc : colcase) : list (list cellv) :=
+  compact_col_gen mode None (cc_max cc) (map src_of_time (cc_in cc)).
 
 Definition cell_eqb (a b : cellv) : bool :=
   match a, b with
@@ -66,30 +66,31 @@ Definition wf_chunkb (m : nat) (c : chunk) : bool :=
   forallb (fun e => list_eqb Nat.eqb (map (@length cellv) (snd e)) (rows_of c)) (k_c c).
 
 (* 0 = agrees *)
-Definition colcase_code (cc : colcase) : nat :=
-  if negb (forallb (wf_chunkb (cc_max cc)) (cc_in cc)) then 50       (* an input chunk is not well-formed *)
-  else match cc_out cc with
+Definition colcase_code (mode : padmode) (cc : colcase) : nat :=
+  match cc_out cc with
   | [o] =>
-      if negb (segs_eqb (map (map (fun t => Some t)) (k_t o)) (model_time cc)) then 52
+      if negb (segs_eqb (map (map (fun t => Some t)) (k_t o)) (model_time mode cc)) then 52
       else if negb (forallb (fun f => match lookup f (k_c o) with
-                                      | Some segs => segs_eqb segs (model_field cc f)
+                                      | Some segs => segs_eqb segs (model_field mode cc f)
                                       | None => false
                                       end)
                             (filter (fun f => existsb (fun c => match lookup f (k_c c) with Some _ => true | None => false end) (cc_in cc))
                                     (cc_fields cc))) then 53
       else if negb (forallb (fun e => existsb (fun c => match lookup (fst e) (k_c c) with Some _ => true | None => false end) (cc_in cc))
                             (k_c o)) then 54
-      else if negb (wf_chunkb (cc_max cc) o) then 55
+      else if forallb (wf_chunkb (cc_max cc)) (cc_in cc) && negb (wf_chunkb (cc_max cc) o) then 55
       else 0
   | _ => 51
   end.
 
-Fixpoint col_mismatches_from (i : nat) (l : list colcase) : list (nat * nat) :=
+(* (index, code under the repaired padding PadActual, code under today's counter padding PadCounter) whenever the repaired
+   model does not agree; on well-formed inputs the two models coincide (ColProofs.actual_eq_counter_on_wf) *)
+Fixpoint col_mismatches_from (i : nat) (l : list colcase) : list (nat * nat * nat) :=
   match l with
   | [] => []
-  | c :: r => match colcase_code c with
+  | c :: r => match colcase_code PadActual c with
               | 0 => col_mismatches_from (S i) r
-              | code => (i, code) :: col_mismatches_from (S i) r
+              | code => (i, code, colcase_code PadCounter c) :: col_mismatches_from (S i) r
               end
   end.
 Definition col_mismatches := col_mismatches_from 0.
